@@ -110,7 +110,8 @@ def main(tier, replay=None):
                 f.write(cl + " " + out + "\n")
                 n_mon += 1
             elif key[0] in "TW":
-                if out in ("P", "E") or "!=" in out:
+                first = out.split(" ")[0] if out else ""
+                if first in ("P", "E") or "!=" in first:
                     writer_bad.append(key)
                     continue
                 f.write(cl + " | " + out + "\n")
@@ -163,6 +164,18 @@ def main(tier, replay=None):
                 "case (zoo type, capacity, prefix already in the buffer, value): " + cl[:3000],
                 "implementation (result 0 = ok / E = error, as_slice afterwards): " + il[:3000],
                 "model                                                          : " + str(model.get(key))[:3000],
+                "replay: bin/check C16 quick --replay <this file>"]))
+        elif key.startswith("T ") and len(sl) > 3 and sl[3] != "written-bytes-do-not-decode":
+            c.violation("readback-" + sl[3].replace(":", "-"), "\n".join([
+                "property C16 fails on the implementation (round trip through the real reader): a value tree written with the",
+                "real writer and read back with the real reader (tag(), value()/tlv()/FromTLV for TLVValue, container()?.iter())",
+                "is not the tree that was written, or re-encoding the decoded element through ToTLV::tlv_iter + TLV::bytes_iter",
+                "does not reproduce the written bytes: " + sl[3],
+                "case (tree written; T<w>/O<w> = string with a <w>-byte length field): " + cl[:3000],
+                "implementation (bytes written, tree read back, bytes re-encoded through tlv_iter):",
+                "  " + il[:4000],
+                "model:",
+                "  " + str(model.get(key))[:4000],
                 "replay: bin/check C16 quick --replay <this file>"]))
         else:
             c.violation("writer-roundtrip", "\n".join([
